@@ -136,7 +136,8 @@ class Values:
                     return V(("elems", ("user", f"{unit.short}:{name}")))
         return V(("user", f"{unit.short}:{name}"))
 
-    CONTAINER_HEADS = {"List", "Deque", "Tuple", "Dict", "Set", "list", "tuple", "dict", "set", "deque"}
+    CONTAINER_HEADS = {"List", "Deque", "Tuple", "Dict", "Set", "list", "tuple", "dict", "set", "deque",
+                       "OrderedDict", "DefaultDict", "FrozenSet", "frozenset"}
 
     def _annotation_head(self, ann: ast.AST) -> str:
         if isinstance(ann, ast.Constant) and isinstance(ann.value, str):
